@@ -4,6 +4,7 @@
 -/
 import SnowModel.Ops.OpCond
 import SnowModel.Ops.Simpson
+import SnowModel.Ops.Flake
 import SnowModel.Ops.Snowing
 import SnowModel.Ops.Snowing2D
 
@@ -12,6 +13,7 @@ open Lean Snow
 def allOps : List (String × Op) :=
   Snow.Ops.opCondOps
   ++ Snow.Ops.simpsonOps
+  ++ Snow.Ops.flakeOps
   ++ Snow.Ops.snowingOps
   ++ Snow.Ops.snowing2DOps
 
